@@ -451,7 +451,7 @@ func (t *Tokenizer) Tokenize(input []byte) ([]models.TokenWithSpan, error) {
 		}()
 
 		for t.pos.Index < len(t.input) {
-			t.skipWhitespace()
+			t.skipTrivia()
 
 			if t.pos.Index >= len(t.input) {
 				break
@@ -591,7 +591,7 @@ func (t *Tokenizer) TokenizeContext(ctx context.Context, input []byte) ([]models
 				}
 			}
 
-			t.skipWhitespace()
+			t.skipTrivia()
 
 			if t.pos.Index >= len(t.input) {
 				break
@@ -647,6 +647,57 @@ func (t *Tokenizer) TokenizeContext(ctx context.Context, input []byte) ([]models
 	metrics.RecordTokenization(duration, len(input), nil)
 
 	return tokens, nil
+}
+
+// skipTrivia skips whitespace and comments before a token, recording each comment.
+func (t *Tokenizer) skipTrivia() {
+	for {
+		t.skipWhitespace()
+		if t.pos.Index+1 >= len(t.input) {
+			return
+		}
+		c0, c1 := t.input[t.pos.Index], t.input[t.pos.Index+1]
+		if !(c0 == '-' && c1 == '-') && !(c0 == '/' && c1 == '*') {
+			return
+		}
+		commentStartIdx := t.pos.Index
+		commentStartPos := t.toSQLPosition(t.pos)
+		t.pos.AdvanceRune(rune(c0), 1)
+		t.pos.AdvanceRune(rune(c1), 1)
+		style := models.LineComment
+		textEnd := 0
+		if c0 == '-' {
+			for t.pos.Index < len(t.input) {
+				cr, csize := utf8.DecodeRune(t.input[t.pos.Index:])
+				t.pos.AdvanceRune(cr, csize)
+				if cr == '\n' {
+					break
+				}
+			}
+			textEnd = t.pos.Index
+			if textEnd > 0 && t.input[textEnd-1] == '\n' {
+				textEnd--
+			}
+		} else {
+			style = models.BlockComment
+			for t.pos.Index < len(t.input) {
+				cr, csize := utf8.DecodeRune(t.input[t.pos.Index:])
+				t.pos.AdvanceRune(cr, csize)
+				if cr == '*' && t.pos.Index < len(t.input) && t.input[t.pos.Index] == '/' {
+					t.pos.AdvanceRune('/', 1)
+					break
+				}
+			}
+			textEnd = t.pos.Index
+		}
+		t.Comments = append(t.Comments, models.Comment{
+			Text:   string(t.input[commentStartIdx:textEnd]),
+			Style:  style,
+			Start:  commentStartPos,
+			End:    t.toSQLPosition(t.pos),
+			Inline: t.hasCodeBeforeOnLine(commentStartIdx),
+		})
+	}
 }
 
 // skipWhitespace advances past any whitespace
